@@ -160,7 +160,8 @@ func (m *machine) portions(heads []gen.Allot) (ps []*big.Rat, und string, f *Fai
 	}
 	if rem >= 0 {
 		if sum.Cmp(one) > 0 {
-			und = "remaining with portions above one"
+			// `remaining` stands for one minus the others, which must therefore not exceed one
+			return nil, "", fail(EAllotmentSum, "sum of the portions next to remaining is %s", sum.String())
 		}
 		ps[rem] = new(big.Rat).Sub(one, sum)
 	} else if sum.Cmp(one) != 0 {
